@@ -622,8 +622,9 @@ def rule_v4(ck, prog, S, model):
                     atom, pol = ev[1]
                     val = None
                     try:
-                        from .regset import eval_bits
-                        val = eval_bits(p, atom)
+                        from .regset import truth_of
+                        # the truth function of the condition as it was when the branch was taken (`x`, `x != 0`, `0 != x`)
+                        val = p.btruth.get(atom.id) or truth_of(p, atom)
                     except Exception:
                         val = None
                     if mss_pol is None and val is not None:
